@@ -648,9 +648,12 @@ impl Model {
                 } else {
                     // a required model sample is skipped or something else is in its place
                     let is_later_expected = inst.samples[mi + 1..].iter().any(|x| {
-                        self.matches(inst, x, op.ss, op.vs, op.is) && x.valid == o.valid && (!x.valid || o.id == Some((x.w, x.seq)))
+                        self.matches(inst, x, op.ss, op.vs, op.is)
+                            && x.valid == o.valid
+                            && (!x.valid || o.id == Some((x.w, x.seq)))
+                            && (x.valid || o.ts == Some(x.ts))
                     });
-                    if is_later_expected || !o.valid {
+                    if is_later_expected {
                         f.push(self.classify_missing(inst, s, op, obs.len()));
                     } else {
                         f.push(self.classify_extra(key, o, op));
